@@ -20,7 +20,7 @@ CLAIMS = {
         design_ref="5 (C07)"),
     "C09": dict(
         technique="Coq proof (fold invariant over the victim loop: selected = named members the actor's rank may remove, duplicate-free; case analysis of TOPIC and INVITE) + 32x32 rank sweep against the real server with a rank-rule oracle",
-        text="Theorems (props/C09.v) for ALL states and rank combinations: KICK selects exactly the named members that are neither founder nor protected and, for a mere half-operator, not "
+        text="GLOBAL (over every event of every connection, frames proved through all 41 commands, registration, teardown and KILL delivery): the topic of a channel that exists before and after a step is unchanged unless the event is a registered connection's TOPIC line naming that channel (C09_topic_changes_only_by_topic); a channel enters a user's pending invitations only through an INVITE line naming exactly that user and channel (C09_invitation_gained_only_by_invite) and a connected user loses a pending invitation only through its own JOIN (C09_invitation_lost_only_by_own_join). Theorems (props/C09.v) for ALL states and rank combinations: KICK selects exactly the named members that are neither founder nor protected and, for a mere half-operator, not "
              "half-operator or above - a duplicate-free list, so absent/repeated names are harmless - and selects nobody for an absent channel (403), an outsider (442) or a rank below half-operator (482), "
              "in which case nothing changes; the new state is the removal of the selected victims through remove_user_from_channel; TOPIC is set only by a member and on +t only by half-operator or "
              "above, stored with the setter's nick (empty text clears) and relayed to every member; INVITE is honoured only from a member (operator flag on +i) for a registered non-member, records "
@@ -170,7 +170,7 @@ CLAIMS = {
         note="argon2 is outside the model: verify is a parameter; the driver instantiates it with hashes produced by the real argon2_hash_password."),
     "C10": dict(
         technique="Coq proof (can_send characterised by a boolean-reflection lemma over glob-based ban semantics; NOTICE silence by induction over the target fold) + flag x ban x rank sweep against the real server with a speaking-rule oracle",
-        text="Theorems (props/C10.v), for ALL channels, senders and sources: can_send holds iff (member or neither +n nor +s) and not (some ban mask globs the source and no exception does) and "
+        text="GLOBAL: a user's away state changes only through its own AWAY command - over every event of every connection the away text of a record is that of the same connection's record before the step unless the event is that connection's AWAY line, and a new user is not away (C10_away_changes_only_by_own_away), so the text a PRIVMSG sender is told is the one the user itself sent last. Theorems (props/C10.v), for ALL channels, senders and sources: can_send holds iff (member or neither +n nor +s) and not (some ban mask globs the source and no exception does) and "
              "(not +m or voice-or-higher), with mask matching proved equal to glob (C14); a channel target is delivered to the C01 audience iff can_send, otherwise nobody receives it and a "
              "PRIVMSG sender gets exactly one 404 (NOTICE: nothing); every line queued by a NOTICE command is the relayed NOTICE itself - no numeric, for all target lists (C10_notice_silent); "
              "PRIVMSG to an away user adds exactly the 301 with the away text, NOTICE does not; that text is the one of the user's LAST AWAY command - AWAY overwrites, AWAY without text clears, nothing else changes (C10_away_is_last_sent).",
